@@ -93,6 +93,8 @@ type c18World struct {
 }
 
 // build creates the scenario's file system; returns the directory pair to remove afterwards.
+var c18Suffixes = []string{".tmp", "~", ".bak", ".new", ".part", ".swp", ".old", ".orig"}
+
 func (w *c18World) build(sc *c18Scenario, contents map[int][]byte) ([]string, error) {
 	w.seq++
 	var dirs []string
@@ -120,7 +122,10 @@ func (w *c18World) build(sc *c18Scenario, contents map[int][]byte) ([]string, er
 			}
 			n.path = filepath.Join(blk, "x")
 		default:
-			n.path = filepath.Join(b, fmt.Sprintf("n%d", n.ID))
+			// names are chained by a typical temp-file suffix ("f", "f.tmp", "f.tmp.tmp", …; the suffix
+			// rotates per scenario), so a source that happens to be named like a temp/backup sibling
+			// of the destination occurs in every scenario that uses neighbouring ids
+			n.path = filepath.Join(b, "f"+strings.Repeat(c18Suffixes[w.seq%len(c18Suffixes)], n.ID))
 		}
 	}
 	first := map[int]string{}
@@ -527,6 +532,17 @@ func runFiles(cfg Cfg) {
 					}
 				}
 				b[0] = byte(ino + 1)
+				// sparse-looking contents: a zero tail (last block(s) all zero), or zero everywhere but byte 0
+				switch (idx + ino) % 5 {
+				case 1:
+					for off := size - min(size-1, 8192); off < size; off++ {
+						b[off] = 0
+					}
+				case 3:
+					for off := 1; off < size; off++ {
+						b[off] = 0
+					}
+				}
 			}
 			contents[ino] = b
 		}
